@@ -44,4 +44,24 @@ CHECKS.update({
   "note": "Trusted: vlib/refquic.py, vlib/reftls.py (self-tests). Emission order of parameters/extensions is a parameter of the reference encoders.",
  },
 })
+_SIM = "Two real QuicConnection endpoints in a virtual-time discrete-event simulator (the harness owns clock and network); Hypothesis draws configuration, application script and per-datagram fates; every emitted datagram is decrypted by the independent implementation vlib/refquic.py. "
+CHECKS.update({
+ "C09": {
+  "technique": "invariant checking over simulated histories (Hypothesis-generated scripts with close / blackout / idle timeouts / timer jitter)",
+  "text": _SIM + "After every API call on a live endpoint get_timer() must be finite; ConnectionTerminated at most once and nothing after it; from the cycle in which an endpoint enters closing/draining it must terminate within 3 x PTO and emit only CONNECTION_CLOSE packets; after a blackout it must terminate at the negotiated idle deadline.",
+  "note": "Bounded horizon (15 virtual seconds after the script); 'starting to close' is read from the connection state attribute; fatal protocol errors injected by a key-holding peer are covered by C05's tasks, not here.",
+ },
+ "C12": {
+  "technique": "invariant checking of the decrypted wire over simulated histories (loss / duplication / reordering of data, ACKs and acks of acks)",
+  "text": _SIM + "Every packet number in every ACK frame an endpoint emits must belong to the packets of that space the network delivered to it; after handshake completion an ack-eliciting packet carrying the highest number so far in the application space must be covered by an ACK sent within the advertised 25 ms; in the Initial / Handshake spaces by the next packet sent in that space.",
+  "note": "'Received and authenticated' is approximated from outside by 'delivered' (sound superset since nothing forged is delivered here). Timers fired exactly when asked; 2 ms simulator slack.",
+ },
+ "C13": {
+  "technique": "invariant checking of emitted datagrams over simulated handshake / migration histories with an independent address-validation model",
+  "text": _SIM + "Every datagram <= the sender's max_datagram_size; every client datagram containing an Initial packet and every server datagram containing an ack-eliciting Initial packet (decided with Initial keys) >= 1200 bytes; per remote address of the server, bytes sent <= 3 x bytes received until the harness's own model validates the address (Handshake packet delivered from it, Retry token, or PATH_RESPONSE echoing a challenge sent to it).",
+  "note": "Certificate chains of 1..3 certificates, Ed25519 / RSA leaves, max_datagram_size 1200..1452, Retry on/off, client rebinds after handshake confirmation. 0-RTT scenarios are not generated yet.",
+ },
+})
+CHECKS["C08"]["text"] += " Second half: a wire monitor in the network simulator checks for every datagrams_to_send call of real endpoints that the in-flight bytes put on the wire do not exceed the congestion window left before the call (one datagram more when a probe was armed), and that bytes_in_flight equals the tracked in-flight packets."
+CHECKS["C08"]["technique"] += " + wire monitor in a virtual-time network simulator"
 PENDING = {}
